@@ -18,6 +18,7 @@ pub fn owns(clause: &str) -> bool {
         || clause == "wire.torn_pong"
         || clause == "wire.torn_pong_at_end"
         || clause == "wire.partial_pong_at_return"
+        || clause == "wire.unflushed"
 }
 
 fn sweep_dims(tier: Tier) -> (u64, u64) {
@@ -95,6 +96,8 @@ impl Prop for C07 {
             mode,
             verify_version: false,
             explicit_gate: true,
+            flushes: vec![],
+            buffered: false,
             inbound,
             reads,
             writes: vec![],
@@ -178,11 +181,21 @@ impl Prop for C07 {
         ops.push(AppOp::Drain {
             max: (frames.len() + n_err + 3) as u32,
         });
+        let buffered = imp == Imp::Tokio && rng.chance(1, 4);
+        let flushes = if imp == Imp::Tokio && rng.chance(1, 3) {
+            let k = rng.usize(1, 60);
+            let pm = rng.range(100, 700);
+            gen::gen_flushes(rng, k, pm)
+        } else {
+            vec![]
+        };
         StreamScenario {
             imp,
             mode,
             verify_version: false,
             explicit_gate: true,
+            flushes,
+            buffered,
             inbound,
             reads,
             writes,
